@@ -1,4 +1,4 @@
-import PeptVerif.Spec.Mass
+import PeptVerif.Lemmas.Mass
 /-!
 C03 — mass calculator ≡ composition calculator + residual delta.  Property theorems only.
 -/
@@ -25,5 +25,50 @@ theorem protons_text_roundtrip :
       match adductComp txt with
       | .ok c => decide (c = protonsComp n)
       | .error _ => false) = true := by decide +kernel
+
+
+/-! ### linearity of `chem_mass` (`chemMassL μ` = the sum Σ μ(element)·count that `chem_mass` computes) -/
+
+/-- adding the counts of a second dict (`d[k] = d.get(k, 0) + v`) adds the masses -/
+theorem chemMass_add (μ : Elem → Rat) (a b : Comp) : chemMassL μ (addAll a b) = chemMassL μ a + chemMassL μ b :=
+  chemMassL_addAll μ a b
+
+/-- scaling every count (a multiplier, a residue count) scales the mass -/
+theorem chemMass_smul (μ : Elem → Rat) (k : Rat) (c : Comp) : chemMassL μ (scale k c) = k * chemMassL μ c :=
+  chemMassL_scale μ k c
+
+/-- `merge_dicts` (add counts per key, drop zero counts) is mass-additive: dropping zero counts is mass-neutral -/
+theorem chemMass_merge (μ : Elem → Rat) (a b : Comp) : chemMassL μ (merge a b) = chemMassL μ a + chemMassL μ b :=
+  chemMassL_merge μ a b
+
+/-- the final `{k: v for k, v in composition.items() if v != 0}` of `_sequence_comp` does not change the mass -/
+theorem chemMass_dropZeros (μ : Elem → Rat) (c : Comp) : chemMassL μ (dropZeros c) = chemMassL μ c :=
+  chemMassL_dropZeros μ c
+
+example : chemMassL (fun e => (e : Rat)) (merge [(1, 2), (2, 3)] [(2, -3), (1, 1 / 2)]) = 5 / 2 := by decide +kernel
+
+/-- `chem_mass` itself (the function that may raise) succeeds on known elements and equals that sum -/
+theorem chemMass_eq_linear (mono : Bool) (c : Comp) (h : c.all (fun p => (elemMass mono p.1).isSome) = true) :
+    chemMass mono c none = .ok (chemMassL (fun e => (elemMass mono e).getD 0) c) :=
+  chemMass_ok mono c h
+
+/-- **averagine estimation is mass-exact**: the composition `estimate_comp(δ)` has monoisotopic mass exactly δ over ℚ,
+so `comp(..., estimate_delta=True)` has the same monoisotopic mass as composition + residual delta -/
+theorem estimate_comp_mass (δ : Rat) :
+    ∃ c, estimateComp δ none = .ok c ∧ chemMass true c none = .ok δ := by
+  refine ⟨_, rfl, ?_⟩
+  have hk : (Gen.averagine.map (fun p => (p.1, p.2 * δ / isotopicAveragineMass))).all
+      (fun p => (elemMass true p.1).isSome) = true := by
+    rw [List.all_map]
+    show Gen.averagine.all (fun p => (elemMass true p.1).isSome) = true
+    decide +kernel
+  rw [chemMass_ok true _ hk, chemMassL_averagine]
+
+/-- and adding it to a composition adds exactly δ to the monoisotopic mass (`comp` with `estimate_delta=True`) -/
+theorem comp_estimate_mass (c : Comp) (δ : Rat) :
+    chemMassL (fun e => (elemMass true e).getD 0)
+      (addAll c (Gen.averagine.map (fun p => (p.1, p.2 * δ / isotopicAveragineMass))))
+      = chemMassL (fun e => (elemMass true e).getD 0) c + δ := by
+  rw [chemMassL_addAll, chemMassL_averagine]
 
 end Pept.C03
